@@ -230,6 +230,65 @@ def replay_ufunc(case, stt):
     one_ufunc_case(pb, f, case["dtype"], case["arr"], case["cls"])
 
 
+# -- long arrays (block-wise implementations) ----------------------------------------------------------------------------
+
+
+@st.composite
+def large_case(draw):
+    return {"ufunc": draw(st.sampled_from(["add", "multiply", "absolute", "conjugate", "exp", "less", "divmod", "modf", "negative", "maximum", "square"])),
+            "dtype": draw(st.sampled_from(["f4", "f8", "c8", "c16", "i8"])), "n": draw(st.sampled_from([65535, 65536, 65537, 70001, 131073])),
+            "arr": draw(st.sampled_from(["s", "ss", "sa", "as", "out", "inplace"])), "cls": draw(st.sampled_from(["Signal", "RadioSignal", "BasebandSignal",
+                                                                                                             "IntensitySignal"]))}
+
+
+def run_large(case, stt):
+    import pulsarbat as pb
+
+    f = getattr(np, case["ufunc"])
+    dt, n, cls = case["dtype"], case["n"], case["cls"]
+    x, y = base_data(dt, (n, 2), 0), base_data(dt, (n, 2), 1)
+    with warnings.catch_warnings(), np.errstate(all="ignore"):
+        warnings.simplefilter("ignore")
+        try:
+            exp = f(x) if f.nin == 1 else f(x, y)
+        except TypeError:
+            stt.label("skip_no_loop")
+            return
+        outs = exp if isinstance(exp, tuple) else (exp,)
+        if not all(admits(cls, o.dtype) for o in outs) or not admits(cls, x.dtype):
+            stt.label("skip_class_dtype")
+            return
+        a, b = mk_sig(pb, cls, x.copy(), 0), mk_sig(pb, cls, y.copy(), 1)
+        arr = (case["arr"] if case["arr"] != "s" else "ss") if f.nin == 2 else "s"
+        with lib("%s on %d samples [%s]" % (case["ufunc"], n, arr)):
+            if arr == "s":
+                r = f(a)
+            elif arr == "ss":
+                r = f(a, b)
+            elif arr == "sa":
+                r = f(a, y)
+            elif arr == "as":
+                r = f(x, b)
+                a = b
+            elif arr == "out":
+                tg = tuple(mk_sig(pb, cls, np.zeros_like(o), 2) for o in outs)
+                r = f(a, b, out=tg if len(tg) > 1 else tg[0])
+                a = None
+            else:
+                if f.nout != 1 or outs[0].dtype != x.dtype:
+                    stt.label("skip_inplace")
+                    return
+                r = f(a, b, out=a)
+        rs = r if isinstance(r, tuple) else (r,)
+        for ri, ei in zip(rs, outs):
+            if a is not None and arr != "inplace":
+                check_result(pb, ri, ei, a, "%s on %d samples" % (case["ufunc"], n))
+            else:
+                check(same_bits(ri.data, ei), "{} on {} samples [{}]: values differ from the ufunc on the arrays", case["ufunc"], n, arr)
+    stt.nt()
+    stt.label("ufunc_" + case["ufunc"])
+
+
 # -- operators, in-place chains --------------------------------------------------------------------------------------
 
 UF = {"+": np.add, "-": np.subtract, "*": np.multiply, "/": np.true_divide, "//": np.floor_divide, "%": np.remainder, "**": np.power,
@@ -515,6 +574,9 @@ SUBS = [
             "different metadata, signal-array, array-signal, scalar both orders, dimensionless Quantity both orders, 0-d, broadcast, out=, out=tuple, "
             "Dask} x classes whose dtype set admits the result; combinations without a NumPy loop are skipped and counted; non-trivial = signal as "
             "second operand, out= form, or two outputs" % len(UFUNCS), pieces_quick=8, pieces_thorough=16),
+    Sub("long_arrays", large_case(), run_large,
+        "11 ufuncs on signals of 65535..131073 samples (block boundaries at 2^16) in the arrangements signal / signal-signal / signal-array / "
+        "array-signal / out= / in-place; bit-identical to NumPy on the arrays; all non-trivial", quick=60, thorough=1000, pieces_quick=4),
     Sub("operators", op_case(), run_op,
         "the 18 binary and 4 unary Python operators on every class (admitted dtypes) with a signal / signal of another class / array / "
         "broadcast array / Python and NumPy scalars / dimensionless Quantity on either side, NumPy and Dask; operators without a loop must raise "
